@@ -202,7 +202,6 @@ Definition set_meta := set_meta_gen false.
 Definition set_meta_pinned := set_meta_gen true.
 
 (* ------------------------------------------------------------------ reading *)
-Definition has_T (s : str) : bool := existsb (fun c => (c =? c_T)%N) s.
 (* Element.get_attribute: "true"/"false" become bool, anything else stays a str *)
 Definition get_attribute (a : option str) : pyval :=
   match a with
